@@ -33,17 +33,18 @@ def run(ctx):
     tr_cover = fc.cover_replay(ctx, exe, 'then', WHAT, fixed=fixed)
     ctx.sample_trace(tr_cover, 14, skip=6)
     models = [('g19', 'empty when_all / when_any | when_any of one (callback vs inline winner) | when_all of one, result shared | '
-                      'when_all with a task set | future + continuation bound to a task set')]
+                      'when_all with a task set | future + continuation bound to a task set | when_all(ConcurrentTaskSet, it, it) | '
+                      'when_all(TaskSet, f): inputs that are not members of the set')]
     if thorough:
         models += [('then2', 'two threads chain continuations while the antecedent completes'),
                    ('wall', 'when_all of two inputs racing their completion'),
                    ('wany', 'when_any of two inputs racing their completion'),
                    ('wallt', 'when_all(f1, f2): the variadic (tuple) overload'),
                    ('wanyt', 'when_any(f1, f2): the variadic (tuple) overload')]
-    models.append(('g19ts', 'task-set overloads of when_all (TaskSet, ConcurrentTaskSet; iterator, variadic), inputs outside / '
-                            'inside the set: taskSet.wait() returned => the result is ready'))
     if thorough:
-        models.append(('g19ts2', 'task-set overload of when_any; variadic when_all of two members of a ConcurrentTaskSet'))
+        models.append(('g19ts', 'task-set overloads of when_all / when_any, two inputs outside the set, inputs that are members '
+                                'of the set (+ a later continuation in front of the when_all callback): taskSet.wait() returned '
+                                '=> the result is ready'))
     for name, label in models:
         fc.model(ctx, name, WHAT, label, fixed=fixed, timeout=2400)
 
